@@ -238,6 +238,17 @@ class Ctx:
         except subprocess.TimeoutExpired:
             raise Broken("engine %s %s timed out after %ss" % (binary, test, timeout))
         if not os.path.exists(fout):
+            crash = juno_crash_site(p.stdout + p.stderr)
+            if crash:
+                # The engine process died in a panic / fatal error raised INSIDE juno code (first
+                # non-runtime frame of the crashing goroutine is a juno function, not harness code):
+                # the real code failed on an input the specification allows. That is a verdict about
+                # the code, not broken machinery. (Never happens on a tree where the property holds.)
+                what = "the real code crashed the engine process: %s in %s" % (crash[0], crash[1])
+                return {"replayed": 0, "steps": 0, "samples": [], "stats": {}, "_wall_s": round(time.time() - t, 1),
+                        "_stdout": (p.stdout + p.stderr)[-4000:],
+                        "divergences": [{"key": "crash:" + crash[1], "what": what, "input": payload, "step": 0,
+                                         "observed": (p.stdout + p.stderr)[-1500:]}]}
             raise Broken("engine %s %s produced no output (exit %s):\n%s" % (
                 os.path.basename(binary), test, p.returncode, (p.stdout + p.stderr)[-6000:]))
         with open(fout) as f:
@@ -327,6 +338,30 @@ class Ctx:
             self.prop, self.tier, self.seed, states, trans, self.traces_validated,
             len(self.violations), len(self.known_hits), time.time() - self.t0))
         return 1 if self.violations else 0
+
+
+def juno_crash_site(out):
+    """If `out` holds a Go panic / fatal error whose crashing goroutine's first non-runtime frame is
+    a juno function, return (headline, function); else None (harness bug, timeout, OOM ...)."""
+    m = re.search(r"^(panic: .*|fatal error: .*)$", out, re.M)
+    if not m:
+        return None
+    rest = out[m.end():]
+    g = re.search(r"^goroutine \d+ .*:$", rest, re.M)
+    if not g:
+        return None
+    block = rest[g.end():].split("\n\n", 1)[0]
+    for line in block.splitlines():
+        line = line.strip()
+        if not line or line.startswith("/") or line.startswith("created by") or "\t" in line[:1]:
+            continue
+        fn = line.split("(")[0]
+        if fn.startswith(("runtime.", "runtime/", "panic(", "testing.", "sync.", "sync/", "internal/", "reflect.", "crypto/", "hash/")) or fn in ("panic",):
+            continue
+        if fn.startswith("github.com/NethermindEth/juno/"):
+            return (m.group(1)[:200], fn.replace("github.com/NethermindEth/juno/", ""))
+        return None
+    return None
 
 
 def key_matches(pattern, key):
